@@ -82,6 +82,22 @@ pub fn eval(line: &str) -> String {
                 Err(_) => "out panic".into(),
             }
         }
+        "hparseat" => {
+            // hparseat <k> <hex>: the cursor stands at position k when parse is called
+            let k: u64 = t[1].parse().unwrap();
+            let bytes = unhex(t[2]);
+            let mut cur = Cursor::new(&bytes);
+            cur.set_position(k);
+            let r = catch_unwind(AssertUnwindSafe(|| FrameHeader::parse(&mut cur)));
+            match r {
+                Ok(Ok(Some((h, len)))) => {
+                    format!("out hdr {} {} {}", show_header(&h), len, cur.position())
+                }
+                Ok(Ok(None)) => format!("out incomplete {}", cur.position()),
+                Ok(Err(e)) => format!("out err {}", show_err(&e)),
+                Err(_) => "out panic".into(),
+            }
+        }
         "hformat" => {
             // hformat <bits> <opcode> <mask|-> <len>
             let len: u64 = t[4].parse().unwrap();
@@ -189,7 +205,7 @@ pub fn eval(line: &str) -> String {
 }
 
 pub const PURE_TAGS: &[&str] =
-    &["closecode", "opcode", "hparse", "hformat", "fformat", "mask", "utf8", "utf8c"];
+    &["closecode", "opcode", "hparse", "hparseat", "hformat", "fformat", "mask", "utf8", "utf8c"];
 
 fn bits(rng: &mut Rng) -> String {
     format!("{}{}{}{}", rng.below(2), rng.below(2), rng.below(2), rng.below(2))
@@ -242,6 +258,33 @@ pub fn generate(family: &str, count: usize, rng: &mut Rng) -> Vec<String> {
                         }
                     }
                 }
+            }
+        }
+        "hparseat" => {
+            // several headers in one buffer, parsed with the cursor standing at each frame start
+            // (and at a few positions inside frames)
+            for _ in 0..count.max(200) {
+                let mut buf: Vec<u8> = Vec::new();
+                let mut starts: Vec<usize> = Vec::new();
+                for _ in 0..rng.range(1, 4) {
+                    starts.push(buf.len());
+                    let op = *rng.pick(&[0u8, 1, 2, 8, 9, 10, 3, 11]);
+                    let len = *rng.pick(&[0u64, 1, 125, 126, 300, 65535, 65536, 1 << 33]);
+                    let m = if rng.chance(1, 2) { Some(rng.mask()) } else { None };
+                    buf.extend(crate::util::enc_header(rng.chance(1, 2), rng.below(8) as u8, op, m, len));
+                    buf.extend(rng.bytes(rng.clone().below(4)));
+                }
+                if rng.chance(1, 3) {
+                    let n = rng.below(buf.len() + 1);
+                    buf.truncate(n);
+                }
+                for st in starts {
+                    if st <= buf.len() {
+                        v.push(format!("hparseat {} {}", st, hex(&buf)));
+                    }
+                }
+                let k = rng.below(buf.len() + 2);
+                v.push(format!("hparseat {} {}", k, hex(&buf)));
             }
         }
         "hformat" => {
